@@ -579,6 +579,19 @@ func evalModItem(vc *VC, env *Env, m Clause) []modItem {
 				}()
 				return env.typeOfExpr(x)
 			}
+			// any(elems([]T)) / any(elems(map[K]V)): every backing array / map of that type
+			if ce2, ok := e.(*ast.CallExpr); ok {
+				if id2, ok := ce2.Fun.(*ast.Ident); ok && id2.Name == "elems" && len(ce2.Args) == 1 {
+					if ty := tryType(ce2.Args[0]); ty != nil {
+						switch u := ty.Underlying().(type) {
+						case *types.Slice:
+							return []modItem{{comp: vc.compElems(u.Elem()), src: m.Src}}
+						case *types.Map:
+							return []modItem{{comp: vc.compMapDom(u), src: m.Src}, {comp: vc.compMapVal(u), src: m.Src}}
+						}
+					}
+				}
+			}
 			if ty := tryType(e); ty != nil {
 				if st, ok := ty.Underlying().(*types.Struct); ok {
 					var out []modItem
